@@ -91,3 +91,12 @@ check("C12",
       level_text="exhaustive within the stated argument domains and single-mutation neighbourhoods",
       level_note="ipld-prime's generic dag-cbor codec is trusted for encoding voucher/selector values inside the independent encoder; inputs with >=2 simultaneous corruptions are outside the bound",
       assumptions=["pure functions; no bubble needed", "ipld-prime generic dag-cbor codec trusted for embedded Any values"])
+
+check("C13",
+      packages=["l1chan"],
+      category="exploration",
+      technique="exhaustive enumeration of version-2 records written by an independent CBOR writer, migrated by the real versioned FSM; differential BFS (migrated vs native channel) over the event alphabet",
+      rule="(a) every status (19) x zero/non-zero of {totals, indexes, message, limit, finalization, total size} x roles (4) (thorough: x vouchers/results counts x stages x IPLD family) written by the harness's own CBOR map writer, opened by the real Channels: listed = stored, every accessor = source field, stages entry by entry, second Start writes nothing; (b) stores with 0/1/2 (all status pairs)/3 channels; (c) differential: for every representative native state the equivalent v2 record is migrated and every event must have the same effect and persist the same; (d) before Start / during a parked migration every operation is refused and nothing written. distinct = distinct accessor vectors observed.",
+      design_ref="DESIGN.md 5/C13",
+      level_text="exhaustive within the stated record domain and event alphabet",
+      level_note="readiness announcement (OnReady) is checked at the manager level (l2node)")
